@@ -27,7 +27,7 @@ Definition toy_rt : runtime :=
      leaf_m := fun _ x => Ok x;
      none_u := fun x => if pv_eqb x toy_none then Ok toy_none else Raise EValue;
      load_scalar := fun x => Ok x;
-     values_scalar := fun _ => Raise EType;
+     values_scalar := fun _ => Raise EType; unpack_scalar := fun _ => Raise EType;
      items_scalar := fun _ => Raise EType;
      pairlike_scalar := fun _ => false;
      index := fun i => PAtom (100 + i);
